@@ -11,18 +11,22 @@ def run(ctx):
         "every step + random stories; each executed on the real APIConnection, the stop callback's invocations and arguments sampled "
         "after EVERY loop callback, traces validated by TLC; client level: the application's stop callback is counted in the traces of "
         "the real APIClient (a disturbance at every stage of a connect, stop callbacks that reconnect) and must equal the number of "
-        "ended sessions (Client.tla nstop); distinct = distinct schedule"
+        "ended sessions (Client.tla nstop), each time with the right reason (sa: graceful end initiated on that connection); distinct = distinct schedule"
     )
     conn_common.run_general_property(ctx)
     # client level: the callback the application handed to connect() / start_connection()
-    fams = {"client_stages": clientsim.stage_family(c19.CFGS[:2]), "client_stop_hook": clientsim.stop_hook_family(c19.CFGS[:1])}
+    import random
+
+    rng = random.Random(ctx.seed + 7)
+    fams = {"client_stages": clientsim.stage_family(c19.CFGS[:2]), "client_stop_hook": clientsim.stop_hook_family(c19.CFGS[:1]),
+            "client_random": [(c, clientsim.random_history(rng, c, rng.randrange(2, 4), rng.choice((0.1, 0.25, 0.5)))) for c in (rng.choice(c19.CFGS) for _ in range(400 if ctx.quick else 10000))]}
     for name, cases in fams.items():
         res = c19.run_family(ctx, name, cases)
         ctx.evaluations += res["n"]
         ctx.distinct |= {(name, i) for i in range(res["n"])}
         ctx.extra[f"reached_{name}"] = res["reach"]
         for f in res["findings"]:
-            if "ns" in f["fields"] or f["fields"] == ["hang"]:
+            if "ns" in f["fields"] or "sa" in f["fields"] or f["fields"] == ["hang"]:
                 ctx.violation(f"Client/{name}/{f['cause']}/{'+'.join(f['fields'])}", {"kind": "client-trace", "family": name, **f})
             else:
                 ctx.notes.append(f"client-level mismatch outside C07 ({f['fields']}) seen in family {name}")
